@@ -479,9 +479,10 @@ def oracle(case, ops, obs):
                 probe["rewound"] = bool(ok) and target == 0        # the helper's first call: seek(0)
             if ok:
                 if taint is None and kind in ("srw", "ssw") and prev_pos != c:
-                    # the listed finding is about absolute (START) seeks; a relative seek that reports success
-                    # from a stale position is a different history and is reported under its own key
-                    taint = (KNOWN_BYPASS if wh == 0 else "C17:%s:relative-seek-from-stale-position" % name, "seek(%d) at op %d reported success while buffer.position (%d) was stale "
+                    # the listed finding covers absolute (START) seeks, and the io-style wrapper whose relative seeks go
+                    # through the same stale position; StreamReaderWrapper refuses relative seeks, so one that reports
+                    # success from a stale position is a different history and is reported under its own key
+                    taint = (KNOWN_BYPASS if (wh == 0 or kind != "srw") else "C17:%s:relative-seek-from-stale-position" % name, "seek(%d) at op %d reported success while buffer.position (%d) was stale "
                              "after reads that bypassed the buffer (true offset %d)" % (p, i, prev_pos, c))
                 if taint is None and kind == "sio" and ob["pos"] != target:
                     taint = (SIO_KEY, "StreamableIOBaseWrapper.seek(%d, %s) at op %d returned True although the wrapped "
